@@ -151,23 +151,32 @@ func vh_C14_StartWithValDoNotationIO() {
 	vfReach("end")
 }
 
-// more requests outstanding at once than the operation channel buffers (5): six callers queue before the target starts
+// more requests outstanding at once than the operation channel buffers (5): six to eight callers queue before the
+// target starts (5 buffered, one blocked in the send, the others queued behind it)
 func vh_C14_ManyCallers() {
-	const callers = 6
+	callers := vfRange("callers", 6, 8)
 	var target *CorDef[int]
 	cs := make([]*CorDef[int], callers)
+	// request payloads and yielded values are symbolic (payloads pairwise distinct so that requests can be attributed)
+	xs, ys := make([]int, callers), make([]int, callers)
+	for c := range xs {
+		xs[c], ys[c] = vfInt("x"), vfInt("y")
+		for d := 0; d < c; d++ {
+			vfAssume(xs[c] != xs[d])
+		}
+	}
 	var seen []int
 	got := make([]int, callers)
 	answered := make([]bool, callers)
 	target = CorNewGenerics[int](func() {
 		for k := 0; k < callers; k++ {
-			seen = append(seen, target.YieldRef(100+k))
+			seen = append(seen, target.YieldRef(ys[k]))
 		}
 	})
 	for c := 0; c < callers; c++ {
 		c := c
 		cs[c] = CorNewGenerics[int](func() {
-			got[c] = cs[c].YieldFrom(target, c)
+			got[c] = cs[c].YieldFrom(target, xs[c])
 			answered[c] = true
 		})
 	}
@@ -184,15 +193,14 @@ func vh_C14_ManyCallers() {
 	vfAssert("every-request-taken-once", len(seen) == callers)
 	for c := 0; c < callers; c++ {
 		vfAssert("caller-answered", answered[c])
-		pos := -1
+		taken, routed := false, false
 		for k, x := range seen {
-			if x == c {
-				pos = k
-			}
+			taken = vfOr(taken, x == xs[c])
+			routed = vfOr(routed, vfAnd(x == xs[c], got[c] == ys[k]))
 		}
-		vfAssert("request-not-lost", pos >= 0)
+		vfAssert("request-not-lost", taken)
 		if answered[c] {
-			vfAssert("own-answer-routed-to-its-caller", got[c] == 100+pos)
+			vfAssert("own-answer-routed-to-its-caller", routed)
 		}
 	}
 	vfReach("end")
